@@ -71,10 +71,25 @@ pub struct JsonReq {
     pub pad: usize,
     pub suffix: Vec<u8>,
     pub cfg: Cfg,
+    /// the body arrives in this many pieces (1 = one piece)
+    pub chunks: usize,
+    /// the transport fails after the last piece instead of ending cleanly (connection cut)
+    pub fail: bool,
     pub class: String,
 }
 
 impl JsonReq {
+    /// the body as the pieces the transport delivers
+    pub fn pieces(&self) -> Vec<Vec<u8>> {
+        let b = self.body();
+        let k = self.chunks.max(1).min(b.len().max(1));
+        let step = b.len().div_ceil(k).max(1);
+        let mut out: Vec<Vec<u8>> = b.chunks(step).map(|c| c.to_vec()).collect();
+        if out.is_empty() {
+            out.push(vec![]);
+        }
+        out
+    }
     pub fn body(&self) -> Vec<u8> {
         let mut b = Vec::with_capacity(self.prefix.len() + self.pad + self.suffix.len());
         b.extend_from_slice(&self.prefix);
@@ -341,6 +356,10 @@ fn serialize(v: &Value, r: &mut Rng) -> Vec<u8> {
     }
 }
 
+fn pb(r: &mut Rng, xs: &[&'static [u8]]) -> &'static [u8] {
+    xs[r.below(xs.len())]
+}
+
 /// malformed bodies derived from a well-formed one
 fn malformed(base: &[u8], r: &mut Rng) -> (Vec<u8>, &'static str) {
     match r.below(16) {
@@ -350,19 +369,19 @@ fn malformed(base: &[u8], r: &mut Rng) -> (Vec<u8>, &'static str) {
         }
         1 => {
             let mut b = base.to_vec();
-            b.extend_from_slice(r.pick(&[&b"x"[..], b"}", b" {}", b",", b"]", b" null", b"\0", b"//c"]));
+            b.extend_from_slice(pb(r, &[b"x", b"}", b" {}", b",", b"]", b" null", b"\0", b"//c"]));
             (b, "trailing_garbage")
         }
-        2 => (r.pick(&[&b"nul"[..], b"True", b"NaN", b"undefined", b"Infinity", b"-", b"nulll", b"tru", b"'a'"]).to_vec(), "bare_word"),
+        2 => (pb(r, &[b"nul", b"True", b"NaN", b"undefined", b"Infinity", b"-", b"nulll", b"tru", b"'a'"]).to_vec(), "bare_word"),
         3 => (
-            r.pick(&[&br#""\q""#[..], br#""\ud800""#, br#""\u12""#, br#"{"a":"\x41"}"#, br#"["\udc00\ud800"]"#, b"\"tab\there\"", b"\"nl\n\""]).to_vec(),
+            pb(r, &[br#""\q""#, br#""\ud800""#, br#""\u12""#, br#"{"a":"\x41"}"#, br#"["\udc00\ud800"]"#, b"\"tab\there\"", b"\"nl\n\""]).to_vec(),
             "invalid_escape",
         ),
         4 => {
             // non-UTF8 bytes inside or outside a string
             let mut b = base.to_vec();
             let at = r.below(b.len() + 1);
-            let bad: &[u8] = r.pick(&[&b"\xff"[..], b"\xc3\x28", b"\xe2\x82", b"\xf0\x28\x8c\xbc", b"\xed\xa0\x80"]);
+            let bad: &[u8] = pb(r, &[b"\xff", b"\xc3\x28", b"\xe2\x82", b"\xf0\x28\x8c\xbc", b"\xed\xa0\x80"]);
             for (i, x) in bad.iter().enumerate() {
                 b.insert(at + i, *x);
             }
@@ -370,7 +389,7 @@ fn malformed(base: &[u8], r: &mut Rng) -> (Vec<u8>, &'static str) {
         }
         5 => (br#"["#.iter().chain(b"\"\xff\xfe\"").chain(b"]").copied().collect(), "non_utf8"),
         6 => (vec![], "empty"),
-        7 => (r.pick(&[&b" "[..], b"\n", b"\t \r\n", b"    "]).to_vec(), "whitespace_only"),
+        7 => (pb(r, &[b" ", b"\n", b"\t \r\n", b"    "]).to_vec(), "whitespace_only"),
         8 => {
             let n = *r.pick(&[100usize, 126, 127, 128, 129, 200, 1000]);
             let open = if r.chance(1, 2) { "[" } else { "{\"a\":" };
@@ -393,7 +412,7 @@ fn malformed(base: &[u8], r: &mut Rng) -> (Vec<u8>, &'static str) {
             (b, "bom")
         }
         10 => (
-            r.pick(&[&b"1e400"[..], b"[1e400]", b"-1e400", b"01", b"1.", b".5", b"+1", b"0x10", b"1e", b"[1,]", b"{\"a\":1,}", b"{a:1}", b"{\"a\" 1}", b"[1 2]"]).to_vec(),
+            pb(r, &[b"1e400", b"[1e400]", b"-1e400", b"01", b"1.", b".5", b"+1", b"0x10", b"1e", b"[1,]", b"{\"a\":1,}", b"{a:1}", b"{\"a\" 1}", b"[1 2]"]).to_vec(),
             "bad_number_or_punct",
         ),
         11 => {
@@ -449,7 +468,7 @@ fn peculiar(target: &str, r: &mut Rng) -> (Vec<u8>, &'static str) {
             ),
             "Shape" => (br#"{"type":"rect","w":1,"h":2,"label":"\t"}"#.to_vec(), "escapes"),
             "VecU8" => (b"[ 0 ,\n255\t]".to_vec(), "valid"),
-            _ => (br#"{"\u0000":"😀","":""}"#.to_vec(), "escapes"),
+            _ => (r#"{"\u0000":"😀","":""}"#.as_bytes().to_vec(), "escapes"),
         },
         4 => {
             // nesting below serde_json's recursion limit: the framework accepts, deserr sees a deep document
@@ -558,12 +577,18 @@ pub fn gen_json_req(target: &str, r: &mut Rng) -> JsonReq {
         78..=97 => cfg = Cfg::Handler418,
         _ => {}
     }
-    // Content-Length header: absent (what TestRequest does), true, lying, unparsable
+    // Content-Length header: true (a normal client), absent (chunked transfer), lying, unparsable
     match r.below(20) {
-        0..=5 => content_length = Some((prefix.len() + pad).to_string()),
-        6 => content_length = Some("99999999".into()),
-        7 => content_length = Some(r.pick(&["abc", "-1", "", "1, 2", "0"]).to_string()),
+        0..=9 => content_length = Some((prefix.len() + pad).to_string()),
+        10 => content_length = Some("99999999".into()),
+        11 => content_length = Some(r.pick(&["abc", "-1", "", "1, 2", "0", "1"]).to_string()),
         _ => {}
+    }
+    // transport: one piece, several pieces, cut connection
+    let chunks = if r.chance(1, 4) { 2 + r.below(6) } else { 1 };
+    let fail = r.chance(1, 40);
+    if fail {
+        class = format!("transport_cut:{}", class.split(':').next().unwrap_or(""));
     }
     if r.chance(1, 200) {
         // suffix after the padding
@@ -571,7 +596,7 @@ pub fn gen_json_req(target: &str, r: &mut Rng) -> JsonReq {
         prefix = b" ".to_vec();
     }
     let method = if r.chance(9, 10) { "POST" } else { *r.pick(&["PUT", "PATCH"]) };
-    JsonReq { method, content_type, content_length, prefix, pad, suffix, cfg, class }
+    JsonReq { method, content_type, content_length, prefix, pad, suffix, cfg, chunks, fail, class }
 }
 
 // ------------------------------------------------------------------------------------------------
@@ -654,7 +679,12 @@ pub fn gen_query_req(r: &mut Rng) -> QueryReq {
         }
         60..=74 => {
             // structural noise
-            let mut parts: Vec<String> = (0..1 + r.below(3)).map(|_| q_pair(r, r.chance(1, 2))).collect();
+            let mut parts: Vec<String> = (0..1 + r.below(3))
+                .map(|_| {
+                    let valid = r.chance(1, 2);
+                    q_pair(r, valid)
+                })
+                .collect();
             let noise = *r.pick(&["", "&", "&&", "q", "=v", "=", "q=a=b", "q==", "a;b=c", "#frag", "?q=1", "q=1#x", "&=&", "q&filter"]);
             let at = r.below(parts.len() + 1);
             parts.insert(at, noise.to_string());
